@@ -165,7 +165,7 @@ func munchOps(s string) []string {
 }
 
 // Separator classes.
-var SepNames = []string{"none", "space", "spaces", "tab", "newline", "crlf", "blank-line", "line-comment", "block-comment", "empty-block-comment", "comment-mix", "block-comment-odd", "line-comment-odd"}
+var SepNames = []string{"none", "space", "spaces", "tab", "newline", "crlf", "blank-line", "line-comment", "block-comment", "empty-block-comment", "comment-mix", "block-comment-odd", "line-comment-odd", "tab-comment-tab"}
 
 // BlockBodies / LineBodies are the unusual comment spellings used by the *-odd separator kinds; Rot rotates through them.
 var BlockBodies = []string{"/***/", "/** doc **/", "/* a*b */", "/* * / */", "/*/ x */", "/* -- */", "/* ' \" ` */", "/* multi\n * line\n **/", "/****/", "/* ;; */", "/* é 日本 */", "/* $1 $$ */", "/*\t*/", "/* **/"}
@@ -203,6 +203,9 @@ func sepText(kind int, n int) (string, []string) {
 	case 12:
 		c := LineBodies[(n+Rot)%len(LineBodies)]
 		return c + "\n", []string{c}
+	case 13:
+		c := "/* t" + string(rune('a'+n%26)) + " */"
+		return "\t" + c + "\t", []string{c}
 	}
 	return "", nil
 }
